@@ -75,6 +75,17 @@ def is_ws_grammar(m, rules, i):
     return z3.Or(single, crlf_tail, z3.And(m.c[i] == 0x0D))
 
 
+def trim_sweep():
+    """native sweep: every property-whitespace run of length 0..2 on each side of trimming and non-trimming output tags and tags"""
+    ws = ['', ' ', '\t', '\n', '\r', '\r\n', ' \t', '\t ', '\n\t', '\t\t']
+    t = ''; exp = ''
+    for w in ws:
+        t += 'a' + w + '{{- 1 -}}' + w + 'b|' + 'a' + w + '{%- assign q = 1 -%}' + w + 'b|' + 'a' + w + '{{ 1 }}' + w + 'b|'
+        exp += 'a1b|ab|' + 'a' + w + '1' + w + 'b|'
+    sc = {'kind': 'template', 'template': t}
+    return sc, (lambda r: r.get('outcome') != 'ok' or r.get('output') != exp)
+
+
 def ob_raw(chk, rules, gh, N):
     with chk.obligation('grammar/Raw-maximal', 'literal text (rule Raw) runs up to the next tag/expression start (including the whitespace a trimming start delimiter owns) and contains no start; '
                         'text without any start delimiter is a single Raw covering the whole input', {'input': f'every string of up to {N} code points'}) as ob:
@@ -89,7 +100,8 @@ def ob_raw(chk, rules, gh, N):
             mo = solve(ob, m.base + [c, z3.Not(z3.And(inside_clean, maximal))])
             if mo is not None:
                 w = witness(m, mo)
-                ob.violation('Raw/not-maximal-or-contains-start', f'Raw matched {w[:e]!r} of {w!r}', {'input': w}, {'kind': 'template', 'template': w}, lambda r, w=w: r.get('outcome') == 'ok' and r.get('output') != w)
+                sc, conf = trim_sweep()
+                ob.violation('Raw/not-maximal-or-contains-start', f'Raw matched {w[:e]!r} of {w!r}', {'input': w}, sc, conf)
         # no start anywhere and non-empty => Raw covers everything
         nostart = z3.And(*[z3.Not(start_at(p)) for p in range(N)])
         mo = solve(ob, m.base + [m.L >= 1, nostart, z3.Not(full(m, res))])
@@ -112,8 +124,126 @@ def run(chk):
     ob_trim_exact(chk, rules, gh, N)
     ob_raw(chk, rules, gh, N)
     chk.trusted |= {'pest implements PEG semantics as documented (ordered choice, greedy repetition, implicit whitespace, atomic cascading)', 'pegsmt encoder'}
+    P = chk.program(('core', 'lib'))
+    ob_text(chk, P)
+    ob_raw_block(chk, P, 2 if chk.tier == 'quick' else 3)
+    ob_comment(chk, P, 2 if chk.tier == 'quick' else 3)
     # translator validation: concrete strings through the encoder and through the real pest parser (via templates)
+    sc_, conf_ = trim_sweep()
+    chk.validate('trim sweep holds natively', False, sc_, conf_)
     for tpl, out in (('plain text', 'plain text'), ('a {{- 1 -}} b', 'a1b'), ('a\t{{-1-}}\n b', 'a1b'), ('{{ 1 }}{{2}}', '12'), ('x{{ "}}" }}y', 'x}}y')):
         from pegsmt.peg import concrete_match
         enc = concrete_match(rules, 'LaxLiquidFile', tpl)
         chk.validate(f'file {tpl!r}: encoder accepts whole input', (enc == len(tpl), out), {'kind': 'template', 'template': tpl}, lambda r: (r.get('outcome') == 'ok', r.get('output')))
+
+
+# ============================================================================ E2 + P-model: raw body, comment
+from mirsym.exec import Executor, State, Unsupported
+from mirsym.values import *
+from checks.common import *
+from checks.pmodel import *
+import itertools
+
+RAW_ALPHABET = ['raw', 'expr', 'if', 'endif', 'raw_tag', 'endraw', 'endraw_arg', 'comment', 'invalid']
+
+
+def ob_raw_block(chk, P, n):
+    with chk.obligation('RawBlock::parse/body-span', 'the body of a raw block is exactly the source text between the opening tag and the first {% endraw %} without arguments '
+                        '(everything in between verbatim, whatever it looks like), it renders as that text, and a missing closer is an error',
+                        {'body': f'every sequence of up to {n} elements over {RAW_ALPHABET}, then an optional closer and trailing elements'}) as ob:
+        ex = Executor(P, models_with(parser_stubs() + registers_models())); ex.seed = chk.seed; ex.max_steps = 40000
+        ob.stubs += ['pest Pair/Span/Position: stubs over a concrete element stream of the shape the grammar guarantees', 'Exp::parse / InvalidLiquidToken::parse: outcome stubs']
+        for ln in range(0, n + 1):
+            for body in itertools.product(RAW_ALPHABET, repeat=ln):
+                for closed in (True, False):
+                    kinds = ['raw_tag'] + list(body) + (['endraw', 'raw'] if closed else [])
+                    want = py_reference(kinds)
+                    st = State()
+                    outs = list(run_parse(ex, P, st, kinds))
+                    ob.paths += len(outs); ob.reached()
+                    for s2, kind, val in outs:
+                        bad = None
+                        if kind == 'panic': bad = f'panics: {val}'
+                        elif want == 'err':
+                            if val[0] != 'err': bad = 'accepted, expected an error'
+                        else:
+                            if val[0] != 'ok':
+                                if not s2.env.get('stub_failed'): bad = f'rejected, expected {want}'
+                            else:
+                                got = [describe_renderable(s2, r) for r in val[1]]
+                                if len(got) != len(want) or got[0][0] != 'RawT' or got[0][1] != want[0][1]: bad = f'parsed as {got}, expected {want}'
+                        if bad:
+                            src = ''.join(ELEMENTS[k][1] for k in kinds).replace('{%if x%}', '{% if x %}')
+                            exp = None if want == 'err' else (want[0][1] + ('txt ' if closed else ''))
+                            sc = {'kind': 'template', 'template': src}
+                            ob.violation('RawBlock/body' if kind != 'panic' else 'RawBlock/panic', f'{src!r}: {bad}', {'elements': kinds}, sc,
+                                         lambda r, exp=exp: (r.get('outcome') != 'err') if exp is None else (r.get('outcome') != 'ok' or r.get('output') != exp))
+            ob.sample({'body_len': ln})
+        # the renderable writes exactly its content, once
+        fn = P.find_method('RawT', 'render_to', 'Renderable', 'lib')
+        st = State(); sink = SinkEnv('W', may_fail=False)
+        for s2, kind, val in ex.run(fn, [st.ref(Adt('RawT', None, [StrV('{{raw}} body', 'String')], ['content'])), st.ref(sink.abs(), True), st.ref(Opaque(('RT',)))], st):
+            ob.paths += 1
+            if kind == 'panic' or sink.text(s2) != [('fmt', ('{{raw}} body',))]:
+                ob.violation('RawT::render_to', f'raw renderable wrote {sink.text(s2)}', {}, {'kind': 'template', 'template': '{% raw %}{{raw}} body{% endraw %}'}, lambda r: r.get('output') != '{{raw}} body')
+        ob.absorb(ex)
+
+
+def ob_text(chk, P):
+    with chk.obligation('Text::render_to/verbatim', 'literal text is written with one write of exactly the stored text; Raw elements store exactly their matched text',
+                        {'text': 'abstract string'}) as ob:
+        ex = Executor(P, models_with([])); ex.seed = chk.seed
+        fn = P.find_method('Text', 'render_to', 'Renderable', 'core')
+        st = State(); sink = SinkEnv('W', may_fail=False)
+        txt = StrV((), 'String', {'name': 'TEXT', 'parts': ('TEXT',)})
+        for s2, kind, val in ex.run(fn, [st.ref(Adt('Text', None, [txt], ['text'])), st.ref(sink.abs(), True), st.ref(Opaque(('RT',)))], st):
+            ob.paths += 1; ob.reached()
+            log = sink.text(s2)
+            if kind == 'panic' or val.variant != 'Ok' or len(log) != 1 or 'TEXT' not in repr(log[0]):
+                ob.violation('Text::render_to', f'text renderable wrote {log} ({kind})', {}, {'kind': 'template', 'template': 'pläin { text % }'}, lambda r: r.get('output') != 'pläin { text % }')
+        f2 = P.find_method('Raw', 'into_renderable', None, 'core')
+        st = State()
+        for s2, kind, val in ex.run(f2, [Adt('Raw', None, [st.ref(StrV('some text', 'str'))], ['text'])], st):
+            ob.paths += 1
+            v = s2.deref_all(val) if kind == 'ret' else None
+            if kind != 'ret' or not (isinstance(v, Adt) and v.ty == 'Text' and isinstance(v.items[0], StrV) and v.items[0].concrete() == 'some text'):
+                ob.violation('Raw::into_renderable', f'{kind} {val}', {}, {'kind': 'template', 'template': 'some text'}, lambda r: r.get('output') != 'some text')
+        ob.absorb(ex)
+
+
+COMMENT_ALPHABET = ['raw', 'expr', 'assign', 'if', 'endif', 'comment', 'endcomment', 'unknown', 'invalid']
+
+
+def ob_comment(chk, P, n):
+    with chk.obligation('CommentBlock/no-effect', 'a comment block parses to a renderable that writes nothing and touches neither the runtime nor anything parsed inside it, whatever well-formed markup it holds; '
+                        'nested comments balance; an unclosed comment is an error', {'body': f'every sequence of up to {n} elements over {COMMENT_ALPHABET}'}) as ob:
+        ex = Executor(P, models_with(parser_stubs() + registers_models() + io_models())); ex.seed = chk.seed; ex.max_steps = 40000
+        for ln in range(0, n + 1):
+            for body in itertools.product(COMMENT_ALPHABET, repeat=ln):
+                kinds = ['comment'] + list(body) + ['endcomment', 'raw']
+                want = py_reference(kinds)
+                if want == 'err': continue      # mis-nested / unclosed bodies belong to C01
+                st = State()
+                for s2, kind, val in run_parse(ex, P, st, kinds):
+                    ob.paths += 1; ob.reached()
+                    src = ''.join(ELEMENTS[k][1] for k in kinds).replace('{%if x%}', '{% if x %}').replace('{{x}}', '{{ 1 }}')
+                    sc = {'kind': 'template', 'template': '{% assign a = 0 %}' + src + '[{{a}}]'}
+                    conf = lambda r: r.get('outcome') == 'ok' and r.get('output') != 'txt [0]'
+                    if kind == 'panic':
+                        ob.violation('CommentBlock/panic', f'{src!r}: panics: {val}', {'elements': kinds}, sc, lambda r: r.get('outcome') == 'panic'); continue
+                    if val[0] != 'ok': continue   # a plugin stub rejected its arguments inside the comment? those errors are ignored by design; nested comment errors propagate
+                    first = val[1][0]
+                    # render the comment's renderable: nothing written, no runtime call, none of the inner renderables rendered
+                    fnr = None
+                    rv = s2.deref_all(first)
+                    if not isinstance(rv, Adt):
+                        ob.violation('CommentBlock/renderable', f'{src!r}: comment parsed to {rv!r}', {'elements': kinds}, sc, conf); continue
+                    fnr = P.find_method(rv.ty, 'render_to', 'Renderable', 'lib')
+                    sink = SinkEnv('CW', may_fail=False); penv = ParentEnv(('a',))
+                    before = len(calls(s2, 'child'))
+                    for s3, k3, v3 in ex.run(fnr, [first if isinstance(first, Ref) else s2.ref(first), s2.ref(sink.abs(), True), s2.ref(penv.abs())], s2):
+                        if k3 == 'panic' or v3.variant != 'Ok' or sink.log(s3) or calls(s3, 'P') or len(calls(s3, 'child')) != before:
+                            ob.violation('CommentBlock/has-effect', f'{src!r}: rendering the comment: {k3} {v3}, wrote {sink.log(s3)}, runtime calls {calls(s3, "P")}, inner renderables rendered: {len(calls(s3, "child")) - before}',
+                                         {'elements': kinds}, sc, conf)
+            ob.sample({'body_len': ln})
+        ob.absorb(ex)
